@@ -281,6 +281,12 @@ def r_pc(repo, tier):
         for name, f in sorted(sem.items()):
             if f.mod.name != asmmod:
                 continue
+            if getattr(repo, "inline_view", False):
+                # second / third look: the store to fmap[pc] may live in a helper written after the review
+                try:
+                    f = repo.func(f.file, f.qual)
+                except AnalysisError:
+                    pass
             n += 1
             wrapped = any(isinstance(d, ast.Name) and d.id == wrapper for d in f.node.decorator_list)
             cfg = CFG(f.node, may_raise=lambda x: False)
@@ -366,7 +372,7 @@ def r_signed(repo, tier):
                 elif not cmps and not unsigned_ops:
                     out.undecide(f.file, "i_" + mn, mn, "no ordered comparison recognised")
     out.stats["functions"] = n
-    if n < 16:
+    if n < 8:
         raise AnalysisError("R-SIGNED: only %d ordered-comparison semantics found (16 expected)" % n)
     return out
 
@@ -419,6 +425,12 @@ def r_raw(repo, tier):
         for name, f in sorted(sem.items()):
             if f.mod.name != asmmod:
                 continue
+            if getattr(repo, "inline_view", False):
+                # third look: a write / evaluation order hidden in a helper written after the review
+                try:
+                    f = repo.func(f.file, f.qual)
+                except AnalysisError:
+                    pass
             # operands unpacking: dst, src1, ... = ins.operands
             ops = None
             for s in f.node.body:
@@ -441,6 +453,14 @@ def r_raw(repo, tier):
             kinds = operand_kinds(repo, specmod, name[2:])
             if kinds is not None and len(kinds) == len(ops):
                 srcs = [o for o, k in zip(ops, kinds) if o not in dests and k != "const"]
+            # locals that hold an *unevaluated* expression over a source operand (`target = src1 + imm`) stand for it
+            derived = set(srcs)
+            for _ in range(3):
+                for a_ in ast.walk(f.node):
+                    if isinstance(a_, ast.Assign) and len(a_.targets) == 1 and isinstance(a_.targets[0], ast.Name) and a_.targets[0].id not in ops \
+                            and ({x.id for x in ast.walk(a_.value) if isinstance(x, ast.Name)} & derived) \
+                            and not any(isinstance(c_, ast.Call) and norm(c_.func) == "fmap" for c_ in ast.walk(a_.value)):
+                        derived.add(a_.targets[0].id)
             bad = None
             for nd in cfg.nodes:
                 if nd.kind == "stmt" and isinstance(nd.ast, ast.Assign) and any(isinstance(t, ast.Subscript) and norm(t.value) == "fmap" and isinstance(t.slice, ast.Name) and t.slice.id in dests for t in nd.ast.targets):
@@ -450,7 +470,7 @@ def r_raw(repo, tier):
                             continue
                         for c in _walk_no_nested(m.ast.test if m.kind == "test" else m.ast):
                             if isinstance(c, ast.Call) and norm(c.func) == "fmap" and c.args:
-                                used = {x.id for x in ast.walk(c.args[0]) if isinstance(x, ast.Name)} & set(srcs)
+                                used = {x.id for x in ast.walk(c.args[0]) if isinstance(x, ast.Name)} & derived
                                 # memory operands are locations, not registers; only register-typed sources matter: all ops may be regs
                                 if used:
                                     bad = (nd, m, sorted(used))
@@ -784,7 +804,7 @@ def r_rvsibling(repo, tier):
             lb = db[k] if k < len(db) else "<end>"
             out.report(b.rel, name, "sibling %s" % name, fb[name].node.lineno, "rv32i and rv64i %s differ beyond the width constant: rv32i has `%s` where rv64i has `%s` (rv32i/asm.py:%d, rv64i/asm.py:%d)" % (name, la[:80], lb[:80], fa[name].node.lineno, fb[name].node.lineno))
     out.stats["pairs"] = n
-    if n < 40:
+    if n < 30:
         raise AnalysisError("R-RVSIB: only %d common functions" % n)
     return out
 
